@@ -143,7 +143,7 @@ func identN(log []*sim.Request) []string {
 func TestVerifC12(t *testing.T) {
 	r := mc.NewReport("C12", "decorator")
 	defer r.Write()
-	r.DeclareClauses("no-panic", "error-and-requeue", "forget-on-success", "sticky-others-reconciled", "converges-like-fault-free")
+	r.DeclareClauses("no-panic", "error-and-requeue", "forget-on-success", "sticky-others-reconciled", "converges-like-fault-free", "benign-race-tolerated")
 	base := c12Build()
 	base.Q.Put(base.key)
 	base.Sim.ResetLog()
@@ -207,6 +207,11 @@ func TestVerifC12(t *testing.T) {
 				if !rate || forget {
 					bad("failure-not-retried:"+dev.Kind, "a non-benign failure must make the sync report an error and requeue with back-off (AddRateLimited=%v Forget=%v)", rate, forget)
 				}
+			case -2:
+				r.Clause("benign-race-tolerated")
+				if rate {
+					bad("benign-race-reported-as-error:"+dev.Kind, "a documented benign race (attachment gone / changed just before the request) made the sync report an error")
+				}
 			case -1:
 				r.Clause("forget-on-success")
 				if rate {
@@ -268,6 +273,34 @@ func TestVerifC12(t *testing.T) {
 					return nil
 				}
 			}, nil, expect)
+		}
+	}
+	// real benign races: the environment really removes / edits the attachment just before the request
+	for i, q := range log {
+		if !isChild(q) || !(q.Verb == "get" || q.Verb == "update" || q.Verb == "delete") {
+			continue
+		}
+		for _, kind := range []string{"race:gone", "race:edited"} {
+			if kind == "race:edited" && q.Verb != "update" {
+				continue
+			}
+			id, k := ids[i], kind
+			run(c12Dev{Kind: k, Ident: id}, func(x *c12World) func(*sim.Request) *sim.Fault {
+				seen := map[string]int{}
+				return func(g *sim.Request) *sim.Fault {
+					gid := g.Ident()
+					seen[gid]++
+					if fmt.Sprintf("%s#%d", gid, seen[gid]) == id {
+						if k == "race:gone" {
+							x.Sim.RemoveLocked(g.Kind, g.NS, g.Name)
+						} else {
+							x.Sim.EditLocked(g.Kind, g.NS, g.Name, func(o map[string]interface{}) { kit.Ann(o, "touched-by", "someone") })
+						}
+						g.Pre = x.Sim.GetLocked(g.Kind, g.NS, g.Name)
+					}
+					return nil
+				}
+			}, nil, -2)
 		}
 	}
 	stickyNames := map[string]bool{}
